@@ -191,3 +191,28 @@ MANIFEST_TEXT["C04"] = {
   "text": "Every enumerated input / fault was delivered to a client in each phase; no panic, no stall with unread input and no call left pending after the transport ended was observed.",
   "note": "Trusted: mocks, executor (a stall is decided in the closed world of the harness). Aborts (stack overflow, OOM) are caught as worker crashes and attributed to the running case. Infinite loops that never touch the transport would only be seen by the watchdog (inconclusive).",
   "technique": RM + "fault enumeration / mutation of valid packets with panic capture and quiescence (wedge) detection; ASan tier for the dependencies' unsafe code"}
+
+add("C12", "exploration",
+    "for each request (publish QoS 0/1/2, subscribe, unsubscribe, ping, disconnect; option sets giving an encoded length L from 2 to ~70 000 incl. every L in a band around 127/128 and 16383/16384, thorough: every L in 2..2100) "
+    "L is measured by running the identical request on a twin session without limit; then the request runs against Maximum Packet Size M in {L-1, L/2, L, L+1, 1, 2^32-1, absent} x Receive Maximum {1,2}: "
+    "L > M must give MaximumPacketSizeExceeded with zero bytes written, unchanged H3 state (quota, pending acks, stream registrations, retransmit queue), an intact quota (black-box probe) and no completion on a stray acknowledgement; "
+    "L <= M must write exactly the twin's bytes. distinct = distinct (request, M, R).",
+    {"quick": ["checked", "fast"], "thorough": ["checked", "fast"]},
+    {"quick": {"oversized_requests": 500, "fitting_requests": 500, "h3_state_comparisons": 300, "quota_probes": 200}, "thorough": {"oversized_requests": 10000}})
+MANIFEST_TEXT["C12"] = {
+  "text": "Held for every generated (request, M, R): oversized requests refused with MaximumPacketSizeExceeded, nothing written and nothing left behind; fitting requests written in full.",
+  "note": "Trusted: mocks, hook H3 for the `nothing left behind` state comparison (black-box probes decide independently for quota and pending acknowledgements).",
+  "technique": RM + "differential against a twin run without limit + hooked-state comparison + black-box probes"}
+
+add("C11", "exploration",
+    "broker-side monitor over the wire in logical (arrival) order: every PUBLISH QoS>0 / SUBSCRIBE / UNSUBSCRIBE must carry a non-zero identifier different from that of every operation whose acknowledgement the broker has not sent yet; "
+    "every subscribe() gets its own subscription identifier; starting an operation never panics. Single task: histories of up to 300 000 identifier-consuming operations (several wrap-arounds) with 1 / 7 / 1000 / 60000 outstanding, "
+    "counters seeded below the wrap through hook H2; multi-thread: real OS threads with handle clones issuing concurrent batches against a context thread and a reordering broker thread. distinct = distinct (run parameters).",
+    {"quick": ["checked", "fast"], "thorough": ["checked", "fast", "tsan?"]},
+    {"quick": {"id_consuming_operations": 400000, "identifier_wraps": 4, "mt_operations_completed": 100000}, "thorough": {"id_consuming_operations": 2000000}},
+    ["the property's proviso is respected by construction: fewer than 65535 identifiers are allocated while any one operation is outstanding (window <= 60000, FIFO acknowledgement)",
+     "more than 268 435 455 subscribe() calls on one client cannot be represented in MQTT 5 and are not driven"], timeout=3400)
+MANIFEST_TEXT["C11"] = {
+  "text": "Held on every long history and multi-thread run: identifiers seen on the wire were non-zero and never equal to one still outstanding; several 16-bit wrap-arounds observed per run; no panic while starting operations.",
+  "note": "Trusted: broker-side monitor (its `outstanding` is a subset of the truly outstanding operations, so an alarm is always genuine), mocks. The multi-thread driver is the only source of OS nondeterminism; its verdict is computed from wire order, never from wall-clock.",
+  "technique": RM + "broker-side uniqueness monitor over long histories (wrap-around) and real-thread stress; ThreadSanitizer tier for the cross-thread handle/channels"}
